@@ -63,8 +63,16 @@ class Comparable(object):
 
     def __eq__(self, other):
         if isinstance(other, Comparable):
-            return self.obj == other.obj
-        return self.obj == other
+            other = other.obj
+        if not self.obj == other:
+            return False
+        if type(self.obj) is type(other):
+            return True
+        # N.B., values of different types can be equal although one of them
+        # sorts before the other (1 == 1+0j, and numbers sort before
+        # everything else): not equal as far as ordering is concerned,
+        # otherwise sequences holding them compare inconsistently
+        return not (self < other) and not (Comparable(other) < self)
 
     def __le__(self, other):
         return self < other or self == other
